@@ -512,6 +512,77 @@ example : calcNewCommit exTracked = some 3 := by decide
 /-- … and with one holder less (2 of 5, the learner 6 does not help) nothing commits -/
 example : calcNewCommit { exTracked with matchIdx := [(2, 3), (4, 1), (6, 3)] } = none := by decide
 
+/-- what the monitor checks on an observed commit-index move, as a proposition about a leader state -/
+def CommitJustified (s' : Leader) : Prop :=
+  (voterPeers s'.targets).length + 1 < 2 * holders s'.commit (voterPeers s'.targets) s'.matchIdx ∧
+    entryTerm s'.log s'.commit = some s'.term ∧ s'.commit ≤ s'.log.length
+
+theorem afterUpdate_commit_justified (s : Leader) (peer : Nat) (u : PeerUpdate)
+    (hmove : (afterUpdate s peer u).1.commit ≠ s.commit) : CommitJustified (afterUpdate s peer u).1 := by
+  have hf := updatePeerIndex_fields s peer u
+  simp only at hf
+  let r2 := if !isVoterTarget s.targets peer then learnerCheck (updatePeerIndex s peer u)
+            else (updatePeerIndex s peer u, [])
+  have hr2c : r2.1.commit = s.commit := by
+    simp only [r2]
+    split
+    · rw [(learnerCheck_fields _).2.2.1]; exact hf.2.1
+    · exact hf.2.1
+  have hshape : (afterUpdate s peer u).1 = r2.1 ∨
+      ∃ n, calcNewCommit r2.1 = some n ∧ (afterUpdate s peer u).1 = { r2.1 with commit := n } := by
+    simp only [afterUpdate]
+    split
+    · split
+      · rename_i n hn; exact Or.inr ⟨n, hn, rfl⟩
+      · exact Or.inl rfl
+    · exact Or.inl rfl
+  rcases hshape with h | ⟨n, hn, h⟩
+  · rw [h, hr2c] at hmove; exact absurd rfl hmove
+  · rw [h]
+    have := commit_quorum r2.1 n hn
+    exact ⟨this.1, this.2.1, this.2.2.2⟩
+
+/-- **Every commit-index move caused by an acknowledgement is justified in the state right after the
+    step** — this is, clause for clause, what the `commit` monitor (`Commit.judge`) evaluates on the
+    implementation's observed state. -/
+theorem ack_commit_justified (s : Leader) (peer t : Nat) (r : AckResult)
+    (hmove : (handleAppendResult s peer t r).1.commit ≠ s.commit) :
+    CommitJustified (handleAppendResult s peer t r).1 := by
+  unfold handleAppendResult at hmove ⊢
+  split
+  · rename_i h; simp [h] at hmove
+  · rename_i h1
+    split
+    · rename_i h2; simp [h1, h2] at hmove
+    · rename_i h2
+      simp only [h1, h2, if_false] at hmove
+      cases r with
+      | success m => exact afterUpdate_commit_justified s peer _ hmove
+      | conflict ct ci => exact afterUpdate_commit_justified s peer _ hmove
+      | higherTerm t' =>
+        simp only at hmove ⊢
+        split
+        · rename_i h3; simp [h3] at hmove
+        · rename_i h3; simp [h3] at hmove
+
+/-- the same for the flush path of a multi-voter leader -/
+theorem flush_commit_justified (s : Leader) (d : Nat) (out : Leader × List String × String)
+    (hs : s.singleVoter = false) (h : handleLogFlushed s d = some out) (hmove : out.1.commit ≠ s.commit) :
+    CommitJustified out.1 := by
+  unfold handleLogFlushed at h
+  simp [hs] at h
+  split at h
+  · rename_i n hn
+    injection h with h; subst h
+    have := commit_quorum s n hn
+    exact ⟨this.1, this.2.1, this.2.2.2⟩
+  · injection h with h; subst h; exact absurd rfl hmove
+
+example : CommitJustified (handleAppendResult
+    (initLeader 2 0 1 [1, 2] [⟨1, 1, 3⟩, ⟨2, 1, 3⟩, ⟨3, 1, 3⟩]) 2 2 (.success 2)).1 ∧
+    (handleAppendResult (initLeader 2 0 1 [1, 2] [⟨1, 1, 3⟩, ⟨2, 1, 3⟩, ⟨3, 1, 3⟩]) 2 2 (.success 2)).1.commit = 2 := by
+  unfold CommitJustified; decide
+
 /-! ### regression of defect F30 (fixed by /repo 6ed8b1f) -/
 
 /-- `calculate_new_commit_index` as it was before the fix: median over the entries present -/
